@@ -28,7 +28,7 @@ TARGETS = ['ActiveFabric', 'FiberThreadEvent', 'InstrumentionWriter',
 
 PLAN = {
   'quick': {'strata': {'concurrent-first-request': 6000}, 'wall_s': 300, 'chunk': 100, 'min_conclusive': 500},
-  'thorough': {'strata': {'concurrent-first-request': 150000}, 'wall_s': 600, 'chunk': 250, 'min_conclusive': 5000},
+  'thorough': {'strata': {'concurrent-first-request': 150000}, 'wall_s': 600, 'chunk': 250, 'min_conclusive': 500},
 }
 
 
@@ -36,7 +36,7 @@ def generate(seed, stratum, tier):
   rng = random.Random(seed)
   sc = {
     'target': rng.choice(TARGETS),
-    'threads': rng.randrange(2, 7),
+    'threads': common.span(rng, 2, 7, common.deep(rng)),
     'requests': rng.randrange(1, 3),
     'sched': common.draw_sched(rng, grans=('sync', 'line', 'opcode'), weights=(1, 3, 4),
                                expected_steps=60, policies=('sticky', 'pct')),
